@@ -57,6 +57,10 @@ def sh(cmd, cwd=None, inp=None, timeout=None, env=None):
 def flock(name):
     os.makedirs(BUILD, exist_ok=True)
     path = os.path.join(BUILD, name + ".lock")
+    if name in ("lake", "extract"):
+        # the Lean project (and its Generated/ directory) is shared by every run, also by runs on a scratch copy of
+        # the repository (VERIF_REPO): one lock for all of them
+        path = os.path.join(VERIF, ".build", name + ".lock")
     with open(path, "w") as f:
         fcntl.flock(f, fcntl.LOCK_EX)
         try:
